@@ -48,16 +48,15 @@ pub fn get_or_create_resource_node(
             }
             #[cfg(feature = "verif_hooks")]
             crate::verif::sync::sync_point(1);
-            RESOURCE_NODE_MAP.write().unwrap().insert(
-                res_name.clone(),
-                Arc::new(ResourceNode::new(res_name.clone(), *resource_type)),
-            );
-            RESOURCE_NODE_MAP
-                .read()
-                .unwrap()
-                .get(res_name)
-                .unwrap()
-                .clone()
+            // another thread may have created the node since the lookup above: look again under the
+            // write lock, so that every caller gets the one node of the resource
+            let mut res_map = RESOURCE_NODE_MAP.write().unwrap();
+            if let Some(node) = res_map.get(res_name) {
+                return node.clone();
+            }
+            let node = Arc::new(ResourceNode::new(res_name.clone(), *resource_type));
+            res_map.insert(res_name.clone(), node.clone());
+            node
         }
     }
 }
